@@ -404,3 +404,228 @@ fn poll(st: &mut St, i: usize) {
     }
   }
 }
+
+// ------------------------------------------------------------------------------------------------
+// topic-thr: receiver threads parked in blocking receives while the main thread publishes and leaves.
+// The topic module does not go through `internal::sync`, so the interleaving is the OS scheduler's
+// (plus seeded sleeps).  Record discipline (see TopicTrace): `pubc` before a publish / `pubr` after it,
+// `hdrop` of a sender before the drop, `fcall` before and `fret` after every blocking receive.
+// The mailboxes never fill up (capacity 8, at most 6 publishes), so "omitted because full" does not occur.
+
+pub struct ThrCfg {
+  pub seed: u64,
+  pub is_async: bool,
+  pub kf: Vec<String>,
+}
+
+struct ThreadWake(std::thread::Thread);
+impl std::task::Wake for ThreadWake {
+  fn wake(self: Arc<Self>) {
+    self.0.unpark();
+  }
+}
+
+fn block_on_thr<F: Future>(f: F) -> F::Output {
+  let mut f = std::pin::pin!(f);
+  let w = Waker::from(Arc::new(ThreadWake(std::thread::current())));
+  let mut cx = Context::from_waker(&w);
+  loop {
+    if let Poll::Ready(v) = f.as_mut().poll(&mut cx) {
+      return v;
+    }
+    std::thread::park();
+  }
+}
+
+pub fn run_threads(cfg: &ThrCfg) {
+  use std::sync::atomic::AtomicU32;
+  let mut rng = StdRng::seed_from_u64(cfg.seed);
+  let gen_ = hist::current_gen();
+  let cap = 8usize;
+  let nr = rng.random_range(1..=3usize);
+  let ns = rng.random_range(1..=2usize);
+  // handles: senders 1.., receivers 11..
+  let (txs, rxs): (Vec<Tx>, Vec<Rx>) = if cfg.is_async {
+    // (the async sender is not Clone: clones are made of the sync form and converted)
+    let (t, r) = topic::channel_async::<u8, u32>(cap);
+    let t = t.to_sync();
+    let mut ts = vec![];
+    for _ in 1..ns {
+      ts.push(Tx::A(t.clone().to_async()));
+    }
+    ts.insert(0, Tx::A(t.to_async()));
+    let mut rs = vec![];
+    for _ in 1..nr {
+      rs.push(Rx::A(Box::new(r.clone())));
+    }
+    rs.insert(0, Rx::A(Box::new(r)));
+    (ts, rs)
+  } else {
+    let (t, r) = topic::channel::<u8, u32>(cap);
+    let mut ts = vec![];
+    for _ in 1..ns {
+      ts.push(Tx::S(t.clone()));
+    }
+    ts.insert(0, Tx::S(t));
+    let mut rs = vec![];
+    for _ in 1..nr {
+      rs.push(Rx::S(r.clone()));
+    }
+    rs.insert(0, Rx::S(r));
+    (ts, rs)
+  };
+  let txids: Vec<u32> = (0..ns as u32).map(|i| 1 + i).collect();
+  let rxids: Vec<u32> = (0..nr as u32).map(|i| 11 + i).collect();
+  // (clones made before any subscription: every receiver starts with an empty subscription set)
+  hist::push(json!({"k":"new","cap":cap,"tx":txids,"rx":rxids,"fl": if cfg.is_async {"topic_async"} else {"topic"},"kf":cfg.kf}));
+
+  // sequential setup: subscriptions (one receiver may stay subscribed to nothing)
+  let mut rxs = rxs;
+  for (i, r) in rxs.iter_mut().enumerate() {
+    let none = nr > 1 && i == nr - 1 && rng.random_bool(0.3);
+    for t in 0..3u8 {
+      if !none && rng.random_bool(0.6) {
+        match r {
+          Rx::S(r) => r.subscribe(t),
+          Rx::A(r) => r.subscribe(t),
+        }
+        hist::push(json!({"k":"sub","h":rxids[i],"topic":t}));
+      }
+    }
+  }
+  let mut txs: Vec<Option<Tx>> = txs.into_iter().map(Some).collect();
+  let mut next_v = 0u32;
+  let mut budget = 6usize; // publishes in total (mailbox capacity 8 is never reached)
+  let mut publish = |txs: &mut Vec<Option<Tx>>, rng: &mut StdRng, budget: &mut usize| {
+    let live: Vec<usize> = (0..txs.len()).filter(|&i| txs[i].is_some()).collect();
+    if live.is_empty() || *budget == 0 {
+      return;
+    }
+    *budget -= 1;
+    let i = live[rng.random_range(0..live.len())];
+    let t = rng.random_range(0..3u8);
+    next_v += 1;
+    let v = next_v;
+    hist::push(json!({"k":"pubc","h":txids[i],"topic":t,"v":v}));
+    let ok = match txs[i].as_ref().unwrap() {
+      Tx::S(s) => s.send(t, v).is_ok(),
+      Tx::A(s) => s.send(t, v).is_ok(),
+    };
+    hist::push(json!({"k":"pubr","res": if ok {"ok"} else {"closed"}}));
+  };
+  for _ in 0..rng.random_range(0..=2) {
+    publish(&mut txs, &mut rng, &mut budget);
+  }
+
+  // receiver threads
+  let cur: Arc<Vec<AtomicU32>> = Arc::new((0..nr).map(|_| AtomicU32::new(0)).collect());
+  let mut joins = vec![];
+  for (i, r) in rxs.into_iter().enumerate() {
+    let hid = rxids[i];
+    let cur2 = cur.clone();
+    let timed = rng.random_bool(0.4);
+    let quota = if rng.random_bool(0.3) { rng.random_range(1..=3) } else { 100 };
+    joins.push(std::thread::spawn(move || {
+      hist::join(gen_);
+      let mut r = r;
+      let mut seq = 0u32;
+      let mut got = 0;
+      loop {
+        if got >= quota {
+          break;
+        }
+        seq += 1;
+        let o = (i as u32 + 1) * 1000 + seq;
+        cur2[i].store(o, Ordering::SeqCst);
+        hist::push(json!({"k":"fcall","o":o,"h":hid}));
+        // Ok(Some) value, Ok(None) timeout, Err disconnected
+        let res: Result<Option<(u8, u32)>, ()> = match &mut r {
+          Rx::S(r) => {
+            if timed {
+              match r.recv_timeout(Duration::from_secs(3)) {
+                Ok(x) => Ok(Some(x)),
+                Err(RecvErrorTimeout::Timeout) => Ok(None),
+                Err(RecvErrorTimeout::Disconnected) => Err(()),
+              }
+            } else {
+              r.recv().map(Some).map_err(|_| ())
+            }
+          }
+          Rx::A(r) => block_on_thr(r.recv()).map(Some).map_err(|_| ()),
+        };
+        match res {
+          Ok(Some((t, v))) => {
+            rec_recv_res("fret", "o", o, "val", Some((t, v)));
+            got += 1;
+          }
+          Ok(None) => {
+            hist::push(json!({"k":"tgiveup","o":o}));
+          }
+          Err(()) => {
+            rec_recv_res("fret", "o", o, "disc", None);
+            cur2[i].store(0, Ordering::SeqCst);
+            break;
+          }
+        }
+        cur2[i].store(0, Ordering::SeqCst);
+      }
+      r
+    }));
+  }
+
+  // let the receivers reach their blocking calls, then act
+  std::thread::sleep(Duration::from_millis(rng.random_range(2..12)));
+  let actions = rng.random_range(2..=6);
+  for _ in 0..actions {
+    let live: Vec<usize> = (0..txs.len()).filter(|&i| txs[i].is_some()).collect();
+    if live.is_empty() {
+      break;
+    }
+    if rng.random_bool(0.7) && budget > 0 {
+      publish(&mut txs, &mut rng, &mut budget);
+    } else {
+      let i = live[rng.random_range(0..live.len())];
+      hist::push(json!({"k":"hdrop","h":txids[i]}));
+      txs[i] = None;
+    }
+    match rng.random_range(0..4) {
+      0 => std::thread::sleep(Duration::from_millis(rng.random_range(1..4))),
+      1 => std::thread::yield_now(),
+      _ => {}
+    }
+  }
+  // the last senders leave (right after the last publish in most runs)
+  for i in 0..txs.len() {
+    if txs[i].is_some() {
+      hist::push(json!({"k":"hdrop","h":txids[i]}));
+      txs[i] = None;
+    }
+  }
+  // every receiver must now drain and observe Disconnected (or stop at its quota)
+  let deadline = std::time::Instant::now() + Duration::from_millis(2500);
+  let mut back: Vec<Option<Rx>> = vec![];
+  for (i, j) in joins.into_iter().enumerate() {
+    loop {
+      if j.is_finished() {
+        back.push(j.join().ok());
+        break;
+      }
+      if std::time::Instant::now() > deadline {
+        let o = cur[i].load(Ordering::SeqCst);
+        if o != 0 {
+          hist::push(json!({"k":"tblocked","o":o}));
+        }
+        back.push(None); // the thread is abandoned inside the library
+        break;
+      }
+      std::thread::sleep(Duration::from_millis(2));
+    }
+  }
+  for (i, r) in back.into_iter().enumerate() {
+    if let Some(r) = r {
+      drop(r);
+      hist::push(json!({"k":"hdrop","h":rxids[i]}));
+    }
+  }
+  hist::push(json!({"k":"end"}));
+}
